@@ -587,6 +587,17 @@ theorem gen_literals :
        m.vulnLits = ["", String.ofList kIntroduced, "", String.ofList kFixed, String.ofList kLastAffected, "", ""]) := by
   decide
 
+/-- The database-side test as the query builder writes it: equality of the
+    version kind and `vulnerable_range @> '{v0,…,v9}'::int[]`, the range having
+    been stored with the two-argument constructor `VersionRange(lower, upper)`,
+    i.e. PostgreSQL's default `[)` bounds — the half-open interval of
+    `range_contains_iff`.  (PostgreSQL's `@>` and range constructor themselves
+    are trusted, not run.) -/
+theorem gen_db_range_test :
+    Gen.Matchers.dbRangeTest =
+      ["'{", ",", "}'::int[]", "version_kind", "vulnerable_range @> ", "VersionRange($29, $30)"] := by
+  decide
+
 /-- python, ruby and java apply the same operators to the same keys. -/
 theorem gen_osv_matchers_alike :
     Gen.Matchers.python.cmpOps = Gen.Matchers.ruby.cmpOps ∧ Gen.Matchers.ruby.cmpOps = Gen.Matchers.java.cmpOps ∧
